@@ -90,7 +90,8 @@ def gen_graph_model(rng, profile="mixed", max_types=4, max_rels=4, depth=2, wild
         op = rng.choice([4, 4, 5, 6])
         if op == 6:
             return [6, tree(t, r, d - 1, budget), tree(t, r, d - 1, budget)]
-        return [op] + [tree(t, r, d - 1, budget) for _ in range(rng.choice([2, 2, 3]))]
+        # single-operand unions/intersections are legal in JSON/proto models
+        return [op] + [tree(t, r, d - 1, budget) for _ in range(rng.choice([1, 2, 2, 2, 2, 3]))]
 
     types = []
     for t in tnames:
